@@ -8,11 +8,11 @@ TRUST = 'CPython, struct, binascii; the reference models in /verif/ref (anchored
 
 T = {  # id: (category, text, note, technique, design_ref)
  'C01': ('exploration',
-  'Exhaustive enumeration of every message class, both directions, over stated finite alphabets (26-value boundary alphabet in full cross product per field, per-field sweep 0..65535 in thorough, every list length to the spec limit, every bit content for short lists, all 127x256 exception PDUs) against an independent spec-derived reference codec.',
+  'Exhaustive enumeration of every message class, both directions, over stated finite alphabets (26-value boundary alphabet in full cross product per field, per-field sweep 0..65535 in thorough, every list length to the spec limit, every bit content for short lists, all 127x256 exception PDUs, MEI object lists with repeated ids, the scalar convenience forms of the write constructors) against an independent spec-derived reference codec; no encoded PDU may exceed 253 bytes.',
   TRUST + 'Field values outside the alphabets in *combination* are not covered (per-field exhaustive only).',
   'exhaustive bounded enumeration of inputs against a spec-derived reference codec', 'DESIGN.md 4 C01'),
  'C06': ('model_checking',
-  'Explicit-state search over (bytes consumed, complete framer snapshot, deliveries): every transition is one real processIncomingPacket call, the graph is explored to closure, so every one of the 2^(n-1) chunkings (plus empty reads) of each listed stream of valid frames is covered exactly; oracle = deliveries of the same framer fed one frame per read.',
+  'Explicit-state search over (bytes consumed, complete framer snapshot, deliveries): every transition is one real processIncomingPacket call, the graph is explored to closure, so every one of the 2^(n-1) chunkings (plus empty reads) of each listed stream of valid frames is covered exactly; oracle = deliveries of the same framer fed one frame per read. Streams of 2-3 maximum-size frames (longer than any single ADU) are covered with every chunking of <= 2 cuts (thorough: every pair of cut positions; 3 cuts from a boundary menu).',
   TRUST + 'Streams are finite and listed (all single frames, all ordered pairs, triples/quads over mixes); payload contents are the catalogue values; the framer is assumed to hold no state outside vars(framer) (unknown attribute types abort the check).',
   'explicit-state BFS of the real framer over all chunk schedules (state = snapshot, closure reached)', 'DESIGN.md 4 C06'),
 }
